@@ -662,11 +662,15 @@ end Panel
 
 /-! ## PanelAssembly (two panels, one connection), built on the Panel machine
 
-Modelled: `get_size, calc_k0(conn=…), calc_kG0(), calc_kG0(c=c), calc_kM, calc_kT(c=c), calc_fint, calc_fext,
-get_k0_conn(conn=…), uvw, strain, stress` as the per-panel programs they run (explicit `size=`) in panel order,
-the cache `self.k0_conn` (returned whenever it is not `None`, whatever `conn` argument is passed) and
-`calc_kt_kr` (per panel: `_rebuild`, laminate without offset if there is none).  Connection kernels read only
-geometry / flags of the panels and are folded into the connection token. -/
+Modelled: `get_size, calc_k0(conn=…, finalize=…), calc_kG0(), calc_kG0(c=c), calc_kM, calc_kT(c=c), calc_fint,
+calc_fext, get_k0_conn(conn=…, finalize=…), uvw, strain, stress` as the per-panel programs they run (explicit
+`size=`) in panel order, the cache `self.k0_conn` and `calc_kt_kr` (per panel: `_rebuild`, laminate without offset
+if there is none).  The cache is read and filled only by a request for the assembly's OWN connection list
+(`conn is None` or `conn is self.conn`) with `finalize=True`; every other request (`conn=` another list, or
+`finalize=False`) is computed and returned without touching it.  `calc_k0(conn=…)` adds the matrix that
+`get_k0_conn(conn=conn)` returned (always `finalize=True`: the `finalize` flag of `calc_k0` only decides whether the
+sum of the panel matrices is symmetrised, it is not forwarded).  Connection kernels read only geometry / flags of
+the panels and are folded into the connection token. -/
 namespace Asm
 open Panel
 
@@ -676,13 +680,14 @@ structure ADef where
   connGiven : Bool          -- `PanelAssembly(panels, conn=...)`
 deriving DecidableEq, Repr
 
-/-- which connection list a cached `k0_conn` was built from -/
+/-- which connection list a connection matrix was built from -/
 inductive ConnId where
   | own | other
 deriving DecidableEq, Repr
 
 structure ConnTok where
   id : ConnId
+  fin : Bool                -- `finalize_symmetric_matrix` applied (`finalize=True`)
   t1 : List Tok             -- what `calc_kt_kr` consumed from panel 1
   t2 : List Tok
 deriving DecidableEq, Repr
@@ -696,7 +701,11 @@ deriving DecidableEq, Repr
 def afresh (a : ADef) : AState := ⟨fresh a.d1, fresh a.d2, none⟩
 
 inductive AOp where
-  | size | k0 (other : Bool) | kG0 | kG | kM | kT | fint | fext | conn (other : Bool) | uvw | strain | stress
+  | size
+  | k0 (other fin : Bool)     -- `calc_k0([conn=B][, finalize=False])`
+  | kG0 | kG | kM | kT | fint | fext
+  | conn (other fin : Bool)   -- `get_k0_conn([conn=B][, finalize=False])`
+  | uvw | strain | stress
 deriving DecidableEq, Repr
 
 inductive AOutcome where
@@ -722,18 +731,21 @@ def both (a : ADef) (s : AState) (p : List Instr) : AState × Option Err × List
     let r2 := pstep a.d2 s.p2 p
     ({ s with p1 := r1.1, p2 := r2.1 }, r2.2.1, r1.2.2, r2.2.2)
 
-/-- `get_k0_conn(conn)` -/
-def getConn (a : ADef) (s : AState) (other : Bool) : AState × Except Err ConnTok :=
+/-- `use_cache = finalize and conn is self.conn` -/
+def useCache (other fin : Bool) : Bool := fin && !other
+
+/-- `get_k0_conn(conn, finalize)`: `other` — a list that is not `self.conn` is passed -/
+def getConn (a : ADef) (s : AState) (other fin : Bool) : AState × Except Err ConnTok :=
   if !other && !a.connGiven then (s, .error .RuntimeError)
-  else match s.cache with
+  else match (if useCache other fin then s.cache else none) with
     | some t => (s, .ok t)
     | none =>
       let r := both a s (prog .ktkr)
       match r.2.1 with
       | some e => (r.1, .error e)
       | none =>
-        let t : ConnTok := ⟨if other then .other else .own, r.2.2.1, r.2.2.2⟩
-        ({ r.1 with cache := some t }, .ok t)
+        let t : ConnTok := ⟨if other then .other else .own, fin, r.2.2.1, r.2.2.2⟩
+        (if useCache other fin then { r.1 with cache := some t } else r.1, .ok t)
 
 def uvwProg : List Instr := [lookup, .kern .fuvw]
 def strainProg : List Instr :=
@@ -742,7 +754,7 @@ def stressProg : List Instr := strainProg ++ [.needF .ValueError, .kern .stressM
 def kTProg : List Instr := progKL true false ++ [.push] ++ progKG true false ++ [.push]
 
 def panelProg : AOp → List Instr
-  | .k0 _ => progK0 true
+  | .k0 _ _ => progK0 true
   | .kG0 => progKG0 true
   | .kG => progKG true false
   | .kM => progKM true
@@ -757,8 +769,8 @@ def panelProg : AOp → List Instr
 def astep (a : ADef) (s : AState) (op : AOp) : AState × AOutcome :=
   match op with
   | .size => (s, .ok [] [] none)
-  | .conn other =>
-    let r := getConn a s other
+  | .conn other fin =>
+    let r := getConn a s other fin
     (r.1, match r.2 with
       | .ok t => .ok [] [] (some t)
       | .error e => .err e)
@@ -768,13 +780,13 @@ def astep (a : ADef) (s : AState) (op : AOp) : AState × AOutcome :=
     | some e => (r.1, .err e)
     | none =>
       match op with
-      | .k0 other =>
-        let c := getConn a r.1 other
+      | .k0 other _ =>                       -- `k0 += self.get_k0_conn(conn=conn)`
+        let c := getConn a r.1 other true
         (c.1, match c.2 with
           | .ok t => .ok r.2.2.1 r.2.2.2 (some t)
           | .error e => .err e)
       | .kT | .fint =>                       -- `kT += k0_conn`, `fint += k0_conn*c`
-        let c := getConn a r.1 false
+        let c := getConn a r.1 false true
         (c.1, match c.2 with
           | .ok t => .ok r.2.2.1 r.2.2.2 (some t)
           | .error e => .err e)
@@ -791,8 +803,8 @@ def alog (a : ADef) (s : AState) (op : AOp) : Log × Log :=
     (footprint a.d1 p s.p1.h, match r1.2.1 with
       | some _ => ⟨[], []⟩
       | none => footprint a.d2 p s.p2.h)
-  let connLog (s : AState) (other : Bool) : Log × Log :=
-    if (!other && !a.connGiven) || s.cache.isSome then (⟨[], []⟩, ⟨[], []⟩)
+  let connLog (s : AState) (other fin : Bool) : Log × Log :=
+    if (!other && !a.connGiven) || (useCache other fin && s.cache.isSome) then (⟨[], []⟩, ⟨[], []⟩)
     else
       let r1 := pstep a.d1 s.p1 (prog .ktkr)
       (footprint a.d1 (prog .ktkr) s.p1.h, match r1.2.1 with
@@ -801,17 +813,17 @@ def alog (a : ADef) (s : AState) (op : AOp) : Log × Log :=
   let cat (x y : Log × Log) : Log × Log := (⟨x.1.rd ++ y.1.rd, x.1.wr ++ y.1.wr⟩, ⟨x.2.rd ++ y.2.rd, x.2.wr ++ y.2.wr⟩)
   match op with
   | .size => (⟨[], []⟩, ⟨[], []⟩)
-  | .conn other => connLog s other
-  | .k0 other =>
+  | .conn other fin => connLog s other fin
+  | .k0 other _ =>
     let r := both a s (panelProg op)
     (match r.2.1 with
      | some _ => fp (panelProg op)
-     | none => cat (fp (panelProg op)) (connLog r.1 other))
+     | none => cat (fp (panelProg op)) (connLog r.1 other true))
   | .kT | .fint =>
     let r := both a s (panelProg op)
     (match r.2.1 with
      | some _ => fp (panelProg op)
-     | none => cat (fp (panelProg op)) (connLog r.1 false))
+     | none => cat (fp (panelProg op)) (connLog r.1 false true))
   | op => fp (panelProg op)
 
 end Asm
